@@ -14,7 +14,7 @@ BOUNDS = {"quick": dict(K=5), "thorough": dict(K=8)}
 OPS = ["read", "rewind", "data"]
 
 
-def hist_harness(L, sw, ch, sr, K, overlap, limit, use_recorder_cls):
+def hist_harness(L, sw, ch, sr, K, overlap, limit, use_recorder_cls, advanced=False):
     bps = sw * ch
     util = L.modules["util"]
 
@@ -37,11 +37,25 @@ def hist_harness(L, sw, ch, sr, K, overlap, limit, use_recorder_cls):
             kw["max_read"] = mr
             syms["Mq"] = Mq
             n_vis = z3.If(M < n, M, n)
-        meta = dict(sw=sw, ch=ch, sr=sr, overlap=overlap, limit=limit, cls=use_recorder_cls)
+        meta = dict(sw=sw, ch=ch, sr=sr, overlap=overlap, limit=limit, cls=use_recorder_cls, advanced=advanced)
         ops = []
+        off = z3.IntVal(0)
         try:
-            r = util.Recorder(data, **kw) if use_recorder_cls else util.AudioReader(data, record=True, **kw)
-            r.open()
+            if advanced:
+                # the recorder wraps a source somebody has already read from: what it records starts where it started reading
+                j0 = I("j0")
+                e.assume(z3.And(j0 >= 1, j0 <= n))
+                syms["j0"] = j0
+                inp = L.modules["io"].BufferAudioSource(data, sr, sw, ch)
+                inp.open()
+                inp.read(SymInt(j0))
+                off = j0
+                n_vis = z3.If(n_vis > n - j0, n - j0, n_vis) if limit else n - j0
+                kw2 = {k: v for k, v in kw.items() if k not in ("sr", "sw", "ch")}
+                r = util.Recorder(inp, **kw2) if use_recorder_cls else util.AudioReader(inp, record=True, **kw2)
+            else:
+                r = util.Recorder(data, **kw) if use_recorder_cls else util.AudioReader(data, record=True, **kw)
+                r.open()
         except Exception as ex:
             return now(e, "constructor raised %s" % type(ex).__name__, syms, meta, ops)
         conds = {}
@@ -66,7 +80,7 @@ def hist_harness(L, sw, ch, sr, K, overlap, limit, use_recorder_cls):
                     conds[tag] = False
                     break
                 exists, lo, hi = expected_block(idx, vis, B, H)
-                conds[tag] = z3.Not(exists) if out is None else z3.And(exists, slice_goal(out, D, lo * bps, hi * bps))
+                conds[tag] = z3.Not(exists) if out is None else z3.And(exists, slice_goal(out, D, (off + lo) * bps, (off + hi) * bps))
                 idx += 1
             elif op == "rewind":
                 if exc is not None:
@@ -84,7 +98,7 @@ def hist_harness(L, sw, ch, sr, K, overlap, limit, use_recorder_cls):
                     conds[tag] = False
                     break
                 else:
-                    conds[tag] = slice_goal(out, D, 0, c * bps)
+                    conds[tag] = slice_goal(out, D, off * bps, (off + c) * bps)
         return tok.discharge(e, conds, lambda m: mk(m, syms, meta, ops))
     return path
 
@@ -157,9 +171,21 @@ def replay_fn(c):
         return []
     desc = "%s(%d samples sw=%d ch=%d sr=%d, block=%d hop=%s max_read=%s) history %s" % (
         "Recorder" if c["cls"] else "AudioReader[record]", n, sw, ch, sr, B, H if c["overlap"] else None, ("%s/4 samples" % c.get("Mq")) if c["limit"] else None, c["ops"])
+    off = 0
     try:
-        r = ak.Recorder(data, **kw) if c["cls"] else ak.AudioReader(data, record=True, **kw)
-        r.open()
+        if c.get("advanced"):
+            from auditok import io as rio
+            inp = rio.BufferAudioSource(data, sr, sw, ch)
+            inp.open()
+            inp.read(c["j0"])
+            off = c["j0"]
+            n_vis = min(n_vis, n - off) if c["limit"] else n - off
+            kw2 = {k: v for k, v in kw.items() if k not in ("sr", "sw", "ch")}
+            r = ak.Recorder(inp, **kw2) if c["cls"] else ak.AudioReader(inp, record=True, **kw2)
+            desc += " over a source already advanced by %d samples" % off
+        else:
+            r = ak.Recorder(data, **kw) if c["cls"] else ak.AudioReader(data, record=True, **kw)
+            r.open()
     except Exception as ex:
         return [("C19: constructor raises %s" % type(ex).__name__, desc + ": %s" % ex)]
     phase, idx, cns = "rec", 0, None
@@ -179,7 +205,7 @@ def replay_fn(c):
             if exc is not None:
                 return [("C19: read raises %s" % type(exc).__name__, desc + ": step %d read raises %s" % (step, exc))]
             exists = vis > 0 if idx == 0 else B + (idx - 1) * H < vis
-            want = data[idx * H * bps:min(idx * H + B, vis) * bps] if exists else None
+            want = data[(off + idx * H) * bps:(off + min(idx * H + B, vis)) * bps] if exists else None
             if out != want:
                 return [("C19: %s block differs" % ("replayed" if phase == "rep" else "recorded-phase"),
                          desc + ": step %d read returns %s, expected %s" % (step, None if out is None else len(out), None if want is None else len(want)))]
@@ -197,7 +223,7 @@ def replay_fn(c):
                     return [("C19: data before the first rewind does not raise", desc + ": step %d returns %d bytes" % (step, len(out)))]
             elif exc is not None:
                 return [("C19: data raises %s" % type(exc).__name__, desc + ": step %d: %s" % (step, exc))]
-            elif out != data[:cns * bps]:
+            elif out != data[off * bps:(off + cns) * bps]:
                 return [("C19: recorded data differs from what was consumed", desc + ": step %d data has %d bytes, consumed %d" % (step, len(out), cns * bps))]
     return []
 
@@ -228,6 +254,11 @@ def run(rep):
                     ex = explore(hist_harness(L, sw, ch, 10, K, overlap, limit, cls))
                     rep.add_exploration(hn, ex)
                     tok.handle_cex(rep, hn, ex, replay_fn, ideal=True)
+    for overlap in (False, True):
+        hn = "history[advanced source,K=%d,%s]" % (min(K, 4), "overlap" if overlap else "")
+        ex = explore(hist_harness(L, 2, 1, 10, min(K, 4), overlap, False, False, advanced=True))
+        rep.add_exploration(hn, ex)
+        tok.handle_cex(rep, hn, ex, replay_fn, ideal=True)
     ex = explore(plain_harness(L), workers=1)
     rep.add_exploration("non-recording reader", ex)
     tok.handle_cex(rep, "non-recording reader", ex, replay_fn)
